@@ -2,7 +2,8 @@
      internal/security/brute_force_protector.go  (RecordFailure / RecordSuccess / IsBanned / BanIP / banIP /
                                                   UnbanIP / cleanup / cleanupOldFailures)
      internal/security/ip_manager.go             (IsAllowed / AddToBlacklist / RemoveFromBlacklist /
-                                                  AddToWhitelist / RemoveFromWhitelist / cleanup; exact-address entries)
+                                                  AddToWhitelist / RemoveFromWhitelist / cleanup / findInList)
+     internal/security/ip_manager_storage.go     (the persisted lists survive a restart: loadFromStorage)
      internal/security/rate_limiter.go           (allow / TokenBucket.Take / refill / cleanup)
      internal/app/server/auth_handler.go         (HandleHandshake gates 1-3 and the RecordFailure/RecordSuccess sites)
    Time is an explicit integer (any unit; `tps` = ticks per second for the bucket).  Every mutex-protected
@@ -127,9 +128,26 @@ Definition init_sh : sh :=
   {| now := 0; fails := fun _ => None; bans := fun _ => None; pend := []; bl := fun _ => None; pendbl := [];
      wl := fun _ => false; bk := fun _ => None |}.
 
+(* IPManager.findInList: the exact key first, else the CIDR entry that contains the address.  Addresses are
+   numbers < 1000; the CIDR entry containing address a has key 1000 + a/16 (the harness maps key 1000+g to
+   10.1.0.(16g)/28 and address a to 10.1.0.a); a key >= 1000 is its own group, so a CIDR key is only ever
+   matched exactly.  (The code iterates a Go map: with several overlapping CIDR entries the record found
+   is not determined; the model has one CIDR entry per address.) *)
+Definition cidr_of (ip : N) : N := if (ip <? 1000)%N then (1000 + ip / 16)%N else ip.
+Definition rec_key (m : emap) (ip : N) : N := match m ip with Some _ => ip | None => cidr_of ip end.
+Definition wl_in (w : N -> bool) (ip : N) : bool := w ip || w (cidr_of ip).
+
 (* what IsBanned / IsAllowed answer in a state *)
 Definition is_banned (s : sh) (ip : N) : bool := in_force (now s) (bans s) ip.
-Definition is_allowed (s : sh) (ip : N) : bool := wl s ip || negb (in_force (now s) (bl s) ip).
+Definition is_allowed (s : sh) (ip : N) : bool :=
+  wl_in (wl s) ip || negb (in_force (now s) (bl s) (rec_key (bl s) ip)).
+
+(* a process restart: everything held in memory only is gone (failure records, bans, spawned goroutines,
+   buckets); the black/white lists are rebuilt from the store (NewIPManager -> loadFromStorage), where a
+   temporary record lives exactly until its expiry (storage TTL) and a permanent one has no expiry *)
+Definition restart (s : sh) : sh :=
+  {| now := now s; fails := fun _ => None; bans := fun _ => None; pend := [];
+     bl := sweep (now s) (bl s); pendbl := []; wl := wl s; bk := fun _ => None |}.
 
 (* ---------- calls and threads ---------- *)
 Inductive hkind := HBad | HAnonOk | HAnonFail.   (* unknown client id | first connection ok | credential generation fails *)
@@ -140,7 +158,8 @@ Inductive call :=
 | CFail (ip : N) | CSucc (ip : N) | CQuery (ip : N) | CBan (ip : N) (dur : Z) | CUnban (ip : N) | CCleanup
 | CBlAdd (ip : N) (dur : Z) | CBlRm (ip : N) | CWlAdd (ip : N) | CWlRm (ip : N) | CAllowed (ip : N) | CBlCleanup
 | CAllowIP (ip : N) (n : Z) | CRlCleanup
-| CHs (ip : N) (k : hkind).
+| CHs (ip : N) (k : hkind)
+| CRestart.
 
 (* results appended to a program's log: 0/1 booleans; handshake: 0 blacklisted, 1 banned, 2 rate-limited,
    3 authentication failed, 4 success *)
@@ -201,8 +220,8 @@ Section Step.
     | CWlAdd ip => (PIdle, set_wl s (upd (wl s) ip true), Some 0%N)
     | CWlRm ip => (PIdle, set_wl s (upd (wl s) ip false), Some 0%N)
     | CAllowed ip =>
-        if negb (wl s ip) && has_expired (now s) (bl s) ip
-        then (PIdle, set_bl s (bl s) (pendbl s ++ [ip]), Some 1%N)
+        if negb (wl_in (wl s) ip) && has_expired (now s) (bl s) (rec_key (bl s) ip)
+        then (PIdle, set_bl s (bl s) (pendbl s ++ [rec_key (bl s) ip]), Some 1%N)
         else (PIdle, s, Some (nb (is_allowed s ip)))
     | CBlCleanup => (PIdle, set_bl s (sweep (now s) (bl s)) (pendbl s), Some 0%N)
     | CAllowIP ip n =>
@@ -211,9 +230,10 @@ Section Step.
     | CRlCleanup => (PIdle, set_bk s (fun k => bucket_gc C (now s) (bk s k)), Some 0%N)
     | CHs ip k =>
         (* gate 1: ipManager.IsAllowed *)
-        if negb (wl s ip) && has_expired (now s) (bl s) ip
-        then (PHs2 ip k, set_bl s (bl s) (pendbl s ++ [ip]), None)
+        if negb (wl_in (wl s) ip) && has_expired (now s) (bl s) (rec_key (bl s) ip)
+        then (PHs2 ip k, set_bl s (bl s) (pendbl s ++ [rec_key (bl s) ip]), None)
         else if is_allowed s ip then (PHs2 ip k, s, None) else (PIdle, s, Some 0%N)
+    | CRestart => (PIdle, restart s, Some 0%N)
     end.
 
   (* continuation steps *)
